@@ -664,6 +664,11 @@ def _spec_literals(fa, spec):
     for (t, pol) in spec["atoms"]:
         (txt, p2) = fa._literal(_rename(t, spec["var"], "_c0"), spec["at"], pol)
         e = _parse_lit(txt)
+        if e is not None and any(isinstance(x, ast.Name) and x.id == spec["var"] for x in ast.walk(e)):
+            # a temporary of the loop body that stands for something of the element (`h = rule.compute_hash()` ... `if h is not None`)
+            # is expanded by FA after the renaming: the element variable comes back under its own name
+            e = _rename(e, spec["var"], "_c0")
+            txt = A.norm(e)
         if isinstance(e, ast.Compare) and len(e.ops) == 1 and isinstance(e.ops[0], ast.Eq):
             a_, b_ = sorted([A.norm(e.left), A.norm(e.comparators[0])])
             txt = "%s == %s" % (a_, b_)
@@ -1562,7 +1567,7 @@ def check_digest_consumes_rules(ck, R):
         # canonical order: the order in which the constructor assigns the fields
         free.sort(key=lambda f: f[3])
         okf = delimited or not free
-        ck.ob(R, fa.key(ups[0], "fold-injective:" + ",".join(f[0] for f in free)), okf,
+        ck.ob(R, fa.key(None, "fold-injective:" + ",".join(f[0] for f in free)), okf,
               "rule hashes are folded with a delimiter" if delimited else "every folded piece has a fixed width" if okf else
               "rule hashes are concatenated into the digest with nothing between them, and %s are caller-chosen strings of any length: "
               "moving a character between the explicit versions of two dependencies ('1','23' -> '12','3') leaves the caller's version "
@@ -2366,7 +2371,9 @@ def check_enforcement(ck, R):
         same = sorted([CALLER + ".qualified_name_without_version", "self.qualified_name_without_version"])
         want.add(("%s == %s" % (same[0], same[1]), False))
         memb = [l for l in lits if l[0].startswith("self.fn_reference().qualified_name in ") and l[1] is False]
-        okr = want <= lits and len(memb) == 1
+        # `not in A and not in B` (two guard clauses) is `not in A | B`: several membership tests are one valid set, provided each
+        # of the sets is made of the caller's dependencies or of the function references among its arguments
+        okr = want <= lits and (len(memb) == 1 or (len(memb) > 1 and _membership_sets_are_closure_or_arguments(v)))
         if memb:
             valid = memb[0][0].split(" in ", 1)[1]
         extra = sorted(lits - want - set(memb))
@@ -2414,6 +2421,23 @@ def check_enforcement(ck, R):
     okf = okr
     ck.ob(R, v.key(None, "caller-from-stack"), okf, "the caller is the top frame of this thread's call stack" if okf else
           "the caller is not taken from CallStack.get().get_calling_frame()", v.where())
+
+
+def _membership_sets_are_closure_or_arguments(v) -> bool:
+    """Every set in which _validate_dependency looks the callee's own name up is derived (by value flow, in-place filling included)
+    from `<caller>.dependencies().transitive_memento_fn_dependencies()` or from `_extract_fn_ref_args(<the caller's arguments>)`."""
+    n_sites = 0
+    for n in v.cfg.nodes:
+        if n.kind != "test" and not (n.ast is not None and isinstance(n.ast, (ast.Assign, ast.AnnAssign))):
+            continue
+        for x in ast.walk(n.ast if n.kind == "test" else (n.ast.value or ast.Pass())):
+            if isinstance(x, ast.Compare) and len(x.ops) == 1 and isinstance(x.ops[0], (ast.In, ast.NotIn)) \
+                    and v.xnorm(x.left, n.id) == "self.fn_reference().qualified_name":
+                n_sites += 1
+                calls = {A.call_attr(y) for y in _backward_slice(v, [(x.comparators[0], n.id)], control_dependence=False, nested=False).values() if isinstance(y, ast.Call)}
+                if not ({"transitive_memento_fn_dependencies", "dependencies"} <= calls or "_extract_fn_ref_args" in calls):
+                    return False
+    return n_sites > 0
 
 
 # --------------------------------------------------------------------------------- C14.R3 (K1)
